@@ -88,6 +88,7 @@ type Runner struct {
 	Compared    int
 	failed      *Violation
 	watchdog    bool
+	stale       map[int]bool // peers whose view may lag their log after an injected datastore failure
 	PeerOpts    func(i int, o *sim.PeerOpts)
 	OnStep      func(si int, st Step)
 }
@@ -280,7 +281,7 @@ func (r *Runner) write(i int, op Op, concurrent bool) error {
 	}
 	beforeLen := len(before)
 	var present, judgeDel bool
-	if r.Cfg.Type == tDocs && op.Kind == "del" && !concurrent {
+	if r.Cfg.Type == tDocs && op.Kind == "del" && !concurrent && !r.stale[i] {
 		sn := TakeSnap(tDocs, s, i)
 		_, present = ModelDocs(sn.Entries, sn.Order)[op.Key]
 		judgeDel = true
@@ -288,8 +289,17 @@ func (r *Runner) write(i int, op Op, concurrent bool) error {
 	res, err := ApplyOp(bg, s, op)
 	injected := err != nil && strings.Contains(err.Error(), "sim: injected")
 	if injected {
+		// the entry is in the log but the call failed before the view was rebuilt: no expectation about
+		// presence checks on this peer until its next successful write or merge
 		r.logf("write p%d %s -> injected datastore failure (not acknowledged)", i, op)
+		if r.stale == nil {
+			r.stale = map[int]bool{}
+		}
+		r.stale[i] = true
 		return err
+	}
+	if err == nil && r.stale != nil {
+		delete(r.stale, i)
 	}
 	if judgeDel {
 		r.V.Count("doc_delete_presence_checks", 1)
